@@ -124,9 +124,11 @@ def program_for(atom_t, pos):
             if atom_t[0] != 'p' and atom_t[0] != 'e':
                 return None
             ft = [atom_t[0], atom_t[1], dict(atom_t[2] or {}, max_occurs='unbounded')]
+        # (the derived class adds a mandatory member; the base class is a parameter type of its own, used after the
+        # derived one: what is cached for the derived class must not leak into the base class)
         prog['classes'].append({'n': 'P0', 'fields': [['z', I], ['f', ft]]})
-        prog['classes'].append({'n': 'P', 'base': 'P0', 'fields': [['y', I]]})
-        m['args'] = [['a', ['c', 'P', {}]]]
+        prog['classes'].append({'n': 'P', 'base': 'P0', 'fields': [['y', ['p', 'Integer', {'min_occurs': 1}]]]})
+        m['args'] = [['a', ['c', 'P', {}]], ['b0', ['c', 'P0', {}]]]
         m['ret'] = ['c', 'P', {}]
     elif pos == 'field2':
         prog['classes'].append({'n': 'P', 'fields': [['f', atom_t]]})
@@ -190,7 +192,10 @@ def embed(pos, atom_t, v, v2=None, mode='one'):
     mode: 'one' single value; for array/seq positions v may be a list already."""
     if pos == 'arg' or pos == 'out_bare':
         return [v, 7], v, None, None
-    if pos in ('field', 'seq', 'inherited', 'inherited-seq'):
+    if pos in ('inherited', 'inherited-seq'):
+        o = Obj('P', z=1, f=v, y=2)
+        return [o, Obj('P0', z=3, f=v)], o, None, None
+    if pos in ('field', 'seq'):
         o = Obj('P', z=1, f=v, y=2)
         return [o], o, None, None
     if pos == 'bare':
